@@ -32,7 +32,7 @@ func TestSweep(t *testing.T) {
 	sort.Slice(ctxs, func(i, j int) bool { return ctxs[i].key() < ctxs[j].key() })
 	wk := newWorker()
 	defer wk.close()
-	r := &runner{rep: rep, wk: wk}
+	r := &runner{rep: rep, wk: wk, noFollowUp: true}
 	seen := map[string]bool{}
 	used := 0
 	for _, c := range ctxs {
